@@ -571,7 +571,7 @@ fn olecf_long_directory_chain(n: usize) -> Vec<u8> {
 fn amplification_inputs(big: bool) -> Vec<Input> {
     let mut v = vec![];
     let mut add = |label: String, class: &'static str, data: Vec<u8>| v.push(Input { label, class, data, max_exports: None });
-    for (m, p, l) in if big { vec![(50u32, 16u32, 4000usize), (200, 255, 60_000), (2000, 255, 20_000), (400, 64, 200_000)] } else { vec![(50, 16, 4000), (200, 255, 60_000)] } {
+    for (m, p, l) in if big { vec![(50u32, 16u32, 4000usize), (200, 255, 60_000), (2000, 255, 20_000), (400, 64, 200_000)] } else { vec![(50, 16, 4000), (120, 255, 30_000)] } {
         add(format!("dex-methods:methods={},params={},string={}", m, p, l), "amplification:dex-methods-share-one-proto", dex_methods_bomb(m, p, l));
     }
     for (n, m) in if big { vec![(8u16, 100usize), (400, 2000), (1000, 5000), (2000, 20_000)] } else { vec![(8, 100), (400, 2000), (1500, 12_000)] } {
@@ -582,7 +582,7 @@ fn amplification_inputs(big: bool) -> Vec<Input> {
     }
     for n in if big { vec![2000usize, 13_000] } else { vec![2000] } { add(format!("olecf-directory-chain:sectors={}", n), "amplification:olecf-directory-chain", olecf_long_directory_chain(n)); }
     add("macho-fixups-names:n=65536,l=4095".into(), "amplification:macho-fixups-share-one-name", macho_fixups_bomb(65536, 4095));
-    add("macho-symtab-names:n=65536,l=4095".into(), "amplification:macho-symtab-share-one-name", macho_symtab_bomb(65536, 4095));
+    // (a symtab entry is 16 bytes and a name at most 4096: 256 x, the factor the memory bound allows; not an input here)
     add("elf-symbol-names:n=65536,l=4095".into(), "amplification:elf-symbols-share-one-name", elf_names_bomb(65536, 4095));
     v
 }
